@@ -7,15 +7,31 @@ pub fn read_message<R: Read>(r: &mut R) -> Result<Message, RepeError> {
     let mut hdr_buf = [0u8; HEADER_SIZE];
     read_exact(r, &mut hdr_buf)?;
     let header = Header::decode(&hdr_buf)?;
-    let mut query = vec![0u8; header.query_length as usize];
+    let mut query = try_zeroed_vec(header.query_length as usize)?;
     if !query.is_empty() {
         read_exact(r, &mut query)?;
     }
-    let mut body = vec![0u8; header.body_length as usize];
+    let mut body = try_zeroed_vec(header.body_length as usize)?;
     if !body.is_empty() {
         read_exact(r, &mut body)?;
     }
     Message::new(header, query, body)
+}
+
+/// Zero-filled buffer for a length taken from an untrusted header. A length
+/// that cannot be allocated is reported as an error; `vec![0; len]` would
+/// abort the process (or panic with "capacity overflow") instead.
+pub(crate) fn try_zeroed_vec(len: usize) -> Result<Vec<u8>, RepeError> {
+    let mut v = Vec::new();
+    try_reserve(&mut v, len)?;
+    v.resize(len, 0);
+    Ok(v)
+}
+
+/// Fallible `reserve_exact` for lengths taken from an untrusted header.
+pub(crate) fn try_reserve(buf: &mut Vec<u8>, additional: usize) -> Result<(), RepeError> {
+    buf.try_reserve_exact(additional)
+        .map_err(|_| RepeError::Io(std::io::Error::from(std::io::ErrorKind::OutOfMemory)))
 }
 
 /// Read a full REPE message frame into `buf`, reusing its allocation across
@@ -35,6 +51,7 @@ pub fn read_message_into<R: Read>(r: &mut R, buf: &mut Vec<u8>) -> Result<(), Re
     read_exact(r, &mut buf[..HEADER_SIZE])?;
     let header = Header::decode(&buf[..HEADER_SIZE])?;
     let total = HEADER_SIZE + header.query_length as usize + header.body_length as usize;
+    try_reserve(buf, total - HEADER_SIZE)?;
     buf.resize(total, 0);
     read_exact(r, &mut buf[HEADER_SIZE..total])?;
     Ok(())
